@@ -16,8 +16,8 @@ import (
 // PropDef describes how one property is generated, run and judged.
 type PropDef struct {
 	ID         string
-	New        func() any                     // empty case, for replay decoding
-	Gen        func(t *rapid.T) any           // draw a case
+	New        func() any                      // empty case, for replay decoding
+	Gen        func(t *rapid.T) any            // draw a case
 	Run        func(c any) (*CaseStats, error) // interpret; error = violation
 	Nontrivial func(s *CaseStats) bool
 	Rule       string
